@@ -22,6 +22,9 @@ type Obligation struct {
 	Inputs    []string // SMT names of inputs to extract from a model
 	InputDesc []string
 	Props     []string
+	ConKey    string // contract key (for replay)
+	Clause    CExpr  // the clause this obligation checks, when it is a single contract clause
+	ModelTerms [][2]string // (description, SMT term) pairs to read from a model
 }
 
 type State struct {
@@ -71,6 +74,8 @@ type FnExec struct {
 	deferStack []deferred
 	havocked bool
 	assertHit map[int]bool
+	usedG map[string]bool
+	modelTerms [][2]string
 	ptrLeaves map[ssa.Value][]Leaf // pointers to struct fields: the heaps their target lives in
 	nonNil map[Term]bool
 }
@@ -388,6 +393,8 @@ func (e *Engine) VerifyFunction(fn *ssa.Function, con *Contract) (obls []*Obliga
 	x.run()
 	for _, o := range x.obls {
 		o.Props = con.Props
+		o.ConKey = con.Key
+		o.ModelTerms = x.modelTerms
 	}
 	return x.obls, x.errs, sortedKeys(x.ctx.notes)
 }
@@ -414,6 +421,7 @@ func (x *FnExec) run() {
 			x.inputs = append(x.inputs, l.T)
 			x.inputDesc = append(x.inputDesc, fmt.Sprintf("%s/%d", p.Name(), i))
 		}
+		x.addModelTerms(p.Name(), v, p.Type())
 	}
 	for _, fv := range fn.FreeVars {
 		v := x.freshVal("fv_"+fv.Name(), fv.Type(), false)
@@ -468,7 +476,11 @@ func (x *FnExec) globalInvs(env *Env) []Term {
 	if env.pkg != nil {
 		pkgPath = env.pkg.Pkg.Path()
 	}
+	used := x.usedGlobals()
 	for _, g := range x.eng.cs.Globals[pkgPath] {
+		if !used[g.Name] {
+			continue
+		}
 		out = append(out, env.EvalBool(g.Inv.E))
 		// the global's value is a well-formed pre-existing value
 		if tv, ok := env.lookup(g.Name); ok && tv.T != nil {
@@ -487,8 +499,9 @@ func (x *FnExec) implicitModPre(con *Contract, env *Env) []Term {
 		return nil
 	}
 	var imm []Term
+	used := x.usedGlobals()
 	for _, g := range x.eng.cs.Globals[env.pkg.Pkg.Path()] {
-		if !g.Immutable {
+		if !g.Immutable || !used[g.Name] {
 			continue
 		}
 		tv, ok := env.lookup(g.Name)
@@ -1053,4 +1066,49 @@ func (x *FnExec) havocLoc(env *Env, st *State, m CExpr) {
 		}
 	}
 	x.errorf("unsupported modifies location %s", cexprString(m))
+}
+
+// usedGlobals: package-level variables the function under analysis refers to (their
+// invariants are assumed; invariants of globals the code never touches are irrelevant).
+func (x *FnExec) usedGlobals() map[string]bool {
+	if x.usedG != nil {
+		return x.usedG
+	}
+	x.usedG = map[string]bool{}
+	var ops []*ssa.Value
+	for _, b := range x.fn.Blocks {
+		for _, in := range b.Instrs {
+			ops = in.Operands(ops[:0])
+			for _, o := range ops {
+				if o == nil || *o == nil {
+					continue
+				}
+				if g, ok := (*o).(*ssa.Global); ok {
+					x.usedG[g.Name()] = true
+				}
+			}
+		}
+	}
+	return x.usedG
+}
+
+// addModelTerms records which SMT terms describe an input (leaf values and the integers
+// behind *big.Int leaves) so that a counterexample can be turned into concrete arguments.
+func (x *FnExec) addModelTerms(name string, v Val, t types.Type) {
+	leaves := x.mem.Leaves(t)
+	flat := v.Flatten()
+	for i, l := range leaves {
+		if i >= len(flat) {
+			break
+		}
+		term := flat[i].T
+		if flat[i].B {
+			term = Ite(term, "1", "0")
+		}
+		desc := fmt.Sprintf("%s#%d", name, i)
+		x.modelTerms = append(x.modelTerms, [2]string{desc, term})
+		if l.IsPtr && (strings.HasSuffix(l.Key, ".i") || l.Key == "cell:*math/big.Int") {
+			x.modelTerms = append(x.modelTerms, [2]string{desc + "->Big", Sel(x.initHeap("Big", false), flat[i].T)})
+		}
+	}
 }
